@@ -88,8 +88,8 @@ func FuelScaleFor(body []byte) int64 {
 		return 1
 	}
 	s := math.Pow(n/14, 4)
-	if s > 400 {
-		s = 400
+	if s > 100 {
+		s = 100
 	}
 	return int64(math.Ceil(s))
 }
